@@ -388,6 +388,60 @@ def rel_case(args):
     return ev, viol, [sol, fk, gk, clause, d['Ms'], d['x0'], d['tau'], d['sigma'], N, segs]
 
 
+def cbvalue_case(args):
+    """Callbacks observe ITERATES (values, not only counts): every vector a callback receives equals what a run
+    resumed one (sub-)step at a time hands back, and the last one equals the returned x - under a projection that
+    actually changes the iterates (non-negativity, start in the negative orthant) and for inner loops."""
+    kind, seed = args
+    rnd = random.Random(seed)
+    sol = kind.split('-')[0]
+    d = SL.rel_desc(rnd, sol, 'Zero', 'L2sq', force='projection' if sol != 'adu' else None)
+    d['opts'].pop('nonlinear', None)
+    if sol != 'adu':
+        d['x0'] = [-abs(v) - 1 for v in d['x0']]            # the unconstrained iterates leave the orthant
+        d['opts']['projection'] = True
+        d['pw'] = 1
+    d['niter'] = min(d['niter'], 8)
+    if kind.endswith('inner'):
+        d['opts']['callback_loop'] = 'inner'
+    ev, viol = cbvalue_eval(kind, d)
+    return ev, viol, ([kind, 'values', seed] if ev is not None or viol else None)
+
+
+def cbvalue_eval(kind, d):
+    sol = kind.split('-')[0]
+    N = d['niter']
+    sig = {'solver': SL.REALNAME[sol], 'functional': '-', 'clause': 'callback-value', 'option': kind.split('-', 1)[1]}
+    meta = {'desc': d, 'cbvalue_of': kind, 'sig': sig, 'clause': 'callback-value'}
+    a = SL.rel_run(d, 'opt', [N])
+    if a['err']:
+        return None, [(dict(sig, clause='raised'), dict(meta, stage='relational', error=a['err']))]
+    A = a['its'] + [a['x']]
+    if sol == 'kaczmarz' and kind.endswith('inner'):
+        B = SL.rel_kaczmarz_substeps(d)
+    elif sol == 'adu':
+        # the last inner callback of every outer iteration is the iterate the outer callback reports
+        d2 = json.loads(json.dumps(d))
+        d2['opts']['callback_loop'] = 'outer'
+        b = SL.rel_run(d2, 'opt', [N])
+        m = len(d['Ms'])
+        A = a['its'][m - 1::m] + [a['x']]
+        B = b['its']
+    else:
+        b = SL.rel_run(d, 'opt', [1] * N)                    # one iteration per call: what the caller holds
+        if b['err']:
+            return None, [(dict(sig, clause='raised'), dict(meta, stage='relational', error=b['err']))]
+        B = b['xret']
+    B = B + [B[-1]] if B else B
+    if len(A) != len(B):
+        return None, [(dict(sig, clause='callback-count'), dict(meta, stage='relational', callbacks=len(A) - 1,
+                                                                 expected=len(B) - 1))]
+    ev = SL.pair_event('callback-value', sol, len(A), A, B, -1, -1, start=np.array(d['x0'], dtype=float))
+    if ev is not None:
+        ev['meta'] = meta
+    return ev, []
+
+
 def callback_case(args):
     """Exactly one callback per iteration for the solvers C11 does not otherwise run (douglas_rachford_pd,
     forward_backward_pd, accelerated_proximal_gradient, conjugate_gradient(_normal)): a 'pair' event of the
@@ -553,6 +607,10 @@ def run(ctx):
     with mp.get_context('fork').Pool(8 if quick else 12) as pool:
         routs = pool.map(rel_case, rtasks, chunksize=8)
         routs += pool.map(callback_case, ctasks, chunksize=4)
+        vtasks = [(kind, 5000 * ki + i + 17 * ctx.seed) for ki, kind in enumerate(
+            ['landweber-projection', 'sd-projection', 'kaczmarz-projection', 'kaczmarz-projection+inner', 'adu-inner'])
+            for i in range(10 if quick else 150)]
+        routs += pool.map(cbvalue_case, vtasks, chunksize=4)
     nrel = 0
     for ev, viol, key in routs:
         for sig, detail in viol:
@@ -604,6 +662,12 @@ def replay(body):
     d = body['detail']
     sig = body['signature']
     print('signature:', dumps(sig))
+    if 'cbvalue_of' in d:
+        ev, viol = cbvalue_eval(d['cbvalue_of'], d['desc'])
+        bad = bool(viol) or ev is None or any(abs(p - q) > 2 for u, v in zip(ev['a'], ev['b']) for p, q in zip(u, v))
+        print('callback values vs iterates:', 'differ' if bad else 'agree', viol)
+        print('REPRODUCED' if bad else 'NOT-REPRODUCED')
+        return 1 if bad else 0
     if 'callbacks_of' in d:
         from . import c12
         if 'desc' in d and d['desc'].get('opts', {}).get('callback_loop'):
